@@ -338,6 +338,14 @@ pub(crate) fn parse_f64(v: &str) -> Option<f64> {
         ".inf" | ".Inf" | ".INF" | "+.inf" | "+.Inf" | "+.INF" => Some(f64::INFINITY),
         "-.inf" | "-.Inf" | "-.INF" => Some(f64::NEG_INFINITY),
         ".nan" | ".NaN" | ".NAN" => Some(f64::NAN),
+        // `str::parse::<f64>` also accepts `inf`, `infinity` and `nan` (in any case, with an
+        // optional sign). These are not floats in the core schema.
+        _ if v
+            .trim_start_matches(['+', '-'])
+            .starts_with(|c: char| c.is_ascii_alphabetic()) =>
+        {
+            None
+        }
         _ => v.parse::<f64>().ok(),
     }
 }
